@@ -39,14 +39,15 @@ def run(id_, also, tier, confirm):
             if m and cur:
                 base_sigs[cur].add(m.group(1))
     suite = "pass" if "MUTANT: suite PASS" in out else "FAIL"
-    results = {r["check"] + "/" + r["tier"]: r for r in meta.get("checks_run", [])}
+    seed = int(os.environ.get("VERIF_SEED", "1"))
+    results = {r["check"] + "/" + r["tier"] + "/" + str(r.get("seed", 1)): r for r in meta.get("checks_run", [])}
     cur = None
     for line in out.splitlines():
         m = re.match(r"CHECK (C\d+) rc=(\d+) (\d+)s: (\d+) violation", line)
         if m:
             cur = {"check": m.group(1), "tier": tier, "seed": int(os.environ.get("VERIF_SEED", "1")), "exit": int(m.group(2)), "wall_s": int(m.group(3)),
                    "violation_lines": int(m.group(4)), "signatures": []}
-            results[cur["check"] + "/" + tier] = cur
+            results[cur["check"] + "/" + tier + "/" + str(seed)] = cur
             continue
         m = re.match(r"\s+signature: (.*?)\s+\(x(\d+), first at ([^,]+),", line)
         if m and cur is not None and len(cur["signatures"]) < 6:
@@ -55,7 +56,7 @@ def run(id_, also, tier, confirm):
             cur.setdefault("inconclusive", []).append(line[:300])
     if base_sigs is not None:
         for r in results.values():
-            if r["tier"] == tier and r["check"] in base_sigs and r["check"] in props:
+            if r["tier"] == tier and r.get("seed", 1) == seed and r["check"] in base_sigs and r["check"] in props:
                 known = base_sigs[r["check"]]
                 r["signatures_also_on_base_tree"] = sorted(known)
                 r["signatures"] = [x for x in r["signatures"] if x["sig"] not in known]
@@ -63,11 +64,13 @@ def run(id_, also, tier, confirm):
                     r["exit"] = 0
                     r["note"] = "every signature is also reported on the base tree without the change"
     meta["pinned_suite_with_change"] = suite
-    meta["checks_run"] = sorted(results.values(), key=lambda r: (r["check"], r["tier"]))
-    meta["caught_by"] = sorted({r["check"] for r in meta["checks_run"] if r["exit"] == 1})
-    meta["missed_by"] = sorted({r["check"] for r in meta["checks_run"] if r["exit"] != 1} - set(meta["caught_by"]))
+    meta["checks_run"] = sorted(results.values(), key=lambda r: (r["check"], r["tier"], r.get("seed", 1)))
+    mine = [r for r in meta["checks_run"] if r.get("seed", 1) == seed]
+    suffix = "" if seed == 1 else "_seed%d" % seed
+    meta["caught_by" + suffix] = sorted({r["check"] for r in mine if r["exit"] == 1})
+    meta["missed_by" + suffix] = sorted({r["check"] for r in mine if r["exit"] != 1} - set(meta["caught_by" + suffix]))
     json.dump(meta, open(os.path.join(d, "meta.json"), "w"), indent=1)
-    print("%s suite=%s  %s" % (id_, suite, "  ".join("%s:%s" % (r["check"], "CAUGHT" if r["exit"] == 1 else ("inconclusive" if r["exit"] == 2 else "missed")) for r in meta["checks_run"] if r["tier"] == tier)), flush=True)
+    print("%s suite=%s  %s" % (id_, suite, "  ".join("%s:%s" % (r["check"], "CAUGHT" if r["exit"] == 1 else ("inconclusive" if r["exit"] == 2 else "missed")) for r in meta["checks_run"] if r["tier"] == tier and r.get("seed", 1) == seed)), flush=True)
 
 def results_md():
     rows = []
